@@ -103,6 +103,19 @@ class TupV(V):
         return f"Tup{self.items}"
 
 
+class NamedTupV(TupV):
+    """collections.namedtuple instance"""
+    __slots__ = ("fields", "tname")
+
+    def __init__(self, tname, fields, items):
+        TupV.__init__(self, items)
+        self.fields = list(fields)
+        self.tname = tname
+
+    def __repr__(self):
+        return f"{self.tname}{dict(zip(self.fields, self.items))}"
+
+
 class Ref(V):
     __slots__ = ("id",)
 
@@ -425,3 +438,9 @@ def extreme_axioms(A, n, is_min):
 IDXOF = z3.Function("IDXOF", ARR, z3.IntSort(), z3.RealSort(), z3.IntSort())
 
 NEAR = z3.Function("NEAR", ARR, z3.IntSort(), z3.RealSort(), z3.IntSort(), z3.IntSort())   # (x, len, value, strategy code) -> index
+
+
+def ReplaceAll(s, a, b):
+    """str.replace_all (SMT-LIB) - z3py has no wrapper"""
+    ctx = s.ctx
+    return z3.SeqRef(z3.Z3_mk_seq_replace_all(ctx.ref(), s.as_ast(), a.as_ast(), b.as_ast()), ctx)
